@@ -868,8 +868,15 @@ fn judge(ctx: &mut Ctx, case: &Case, witness_mode: bool) -> Outcome {
             let lo = ctx.lex(&out);
             for (name, what) in &fails {
                 if name == "O4" {
-                    o.count("F25_end_shifts_lines");
-                    continue;
+                    // F32: the comment is attached to the last *statement* token; block-level tokens written
+                    // after it (the final `;`, the rest of a union type) are pushed down by the comment.
+                    // Excused only there: every token before the attach point must keep its line.
+                    let (rl, bl) = (lo.lines(), lbase.lines());
+                    let tail_only = real_pos.map(|p| p < bl.len() && rl.len() == bl.len() && rl[..p] == bl[..p]).unwrap_or(false);
+                    if tail_only && !witness_mode {
+                        o.count("F32_tokens_behind_the_attached_comment_move");
+                        continue;
+                    }
                 }
                 // F27 at the end of a file: the last comment of the file, or the appended comment itself, is a
                 // line comment the generator takes for a long one; what is written next is glued to it
@@ -886,6 +893,8 @@ fn judge(ctx: &mut Ctx, case: &Case, witness_mode: bool) -> Outcome {
             }
             // --- correspondence: token model (code, comments up to merging, lines)
             let oracle_ok = fails.iter().all(|f| f.0 == "O4");
+            // the model's shift: `lines().count()` of the comment for `start`, none for `end`
+            let nlines = if *loc == Loc::Start { nlines } else { 0 };
             if inside && !ct.is_empty() && oracle_ok && corr_fail.is_none() {
                 // position-free: the comment exists exactly once more than before …
                 if lo.coms.len() == lbase.coms.len() + 1 {
